@@ -165,3 +165,95 @@ Section ExtLagObject.
   (* the biases of an ordinary configuration read the reported value *)
   Definition bin_value (c : xcfg) (s : xstate) : list T := [xs_xr s].
 End ExtLagObject.
+
+(* ------------------------------------------------------------------------------------------------
+   Adaptive linear bias (src/colvarbias_alb.cpp, one variable, as repaired on fix-C03-6).
+   A step computes force and energy from the CURRENT coupling constant, then counts the step and updates
+   either the running mean / variance (Welford) or, while "equilibrating", ramps the current coupling towards
+   the set point; every update_freq counted steps a new set point is computed from the statistics.
+   forceCoupling (the coupling that gave the force of the last step) is part of the state: a step that is
+   computed a second time -- step_relative = 0 in a job that loaded a state -- applies it again and leaves the
+   statistics alone.  get_state_params writes every field but the "state just loaded" flag. *)
+Section AlbObject.
+  Context {T : Type} (O : NumOps T).
+
+  Record alb_cfg := mkAlbCfg {
+    al_center : T; al_width : T;
+    al_freq : Z;          (* updateFrequency / 2 *)
+    al_kT : T;            (* target temperature x boltzmann (boltzmann alone at temperature 0) *)
+    al_range0 : T;        (* forceRange *)
+    al_max_rate : T;      (* rateMax, default forceRange / (10 update_freq) *)
+    al_hard : bool;       (* hardForceRange *)
+    al_k0 : T             (* forceConstant (initial set point) *)
+  }.
+
+  Record alb_state := mkAlbState {
+    al_set : T; al_cur : T; al_range : T; al_rate : T; al_accum : T; al_mean : T; al_ssd : T;
+    al_calls : Z; al_equil : bool; al_force_c : T; al_loaded : bool
+  }.
+
+  Definition alb_saved : Type := (T * T * T * T * T * T * T) * (Z * bool * T).
+
+  Definition alb_init (c : alb_cfg) : alb_state :=
+    mkAlbState (al_k0 c) (n0 O) (al_range0 c) (ndiv O (nsub O (al_k0 c) (n0 O)) (nofZ O (al_freq c)))
+               (n0 O) (n0 O) (n0 O) 0 true (n0 O) false.
+
+  (* energy and force of the linear restraint with coupling k: k/width * (x - center), k/width *)
+  Definition alb_out (c : alb_cfg) (k x : T) : T * T :=
+    let kw := ndiv O k (al_width c) in (nmul O kw (nsub O x (al_center c)), kw).
+
+  Definition alb_copysign (a b : T) : T :=        (* |a| with the sign of b *)
+    if nltb O b (n0 O) then nneg O (nabs O a) else nabs O a.
+
+  Definition alb_step (c : alb_cfg) (s : alb_state) (rel : Z) (x : T) : alb_state * (T * T) :=
+    if (rel =? 0) && al_loaded s then
+      (mkAlbState (al_set s) (al_cur s) (al_range s) (al_rate s) (al_accum s) (al_mean s) (al_ssd s)
+                  (al_calls s) (al_equil s) (al_force_c s) false,
+       alb_out c (al_force_c s) x)
+    else
+      let out := alb_out c (al_cur s) x in
+      let fc := al_cur s in
+      let calls1 := al_calls s + 1 in
+      (* statistics or ramp *)
+      let '(mean1, ssd1, cur1, range1, finished) :=
+        if negb (al_equil s) then
+          let delta := nsub O x (al_mean s) in
+          let m := nadd O (al_mean s) (ndiv O delta (nofZ O calls1)) in
+          (m, nadd O (al_ssd s) (nmul O delta (nsub O x m)), al_cur s, al_range s, true)
+        else
+          let diff := nsub O (al_cur s) (al_set s) in
+          let reached := neqb O (al_rate s) (n0 O) || nltb O (nmul O diff diff) (nmul O (al_rate s) (al_rate s)) in
+          let cur' := if reached then al_cur s else nadd O (al_cur s) (al_rate s) in
+          let range' := if negb (al_hard c) && nltb O (al_range s) (nabs O cur')
+                        then nmul O (al_range s) (ndiv O (nofZ O 5) (nofZ O 4)) else al_range s in
+          (al_mean s, al_ssd s, cur', range', reached) in
+      let equil2 := if al_equil s && finished then false else al_equil s in
+      let calls2 := if al_equil s && finished then 0 else calls1 in
+      if negb equil2 && (calls2 =? al_freq c) then
+        let temp := ndiv O (nmul O (nmul O (nofZ O 2) (nsub O (ndiv O mean1 (al_center c)) (n1 O))) ssd1)
+                           (nofZ O (calls2 - 1)) in
+        let step := ndiv O temp (al_kT c) in
+        let accum' := nadd O (al_accum s) (nmul O step step) in
+        let cur' := al_set s in
+        let set' := if nltb O (n0 O) accum'
+                    then nadd O (al_set s) (nmul O (ndiv O range1 (nsqrt O accum')) step) else al_set s in
+        let rate0 := ndiv O (nsub O set' cur') (nofZ O (al_freq c)) in
+        let rate' := alb_copysign (nmin O (nabs O rate0) (al_max_rate c)) rate0 in
+        (mkAlbState set' cur' range1 rate' accum' (n0 O) (n0 O) 0 true fc false, out)
+      else
+        (mkAlbState (al_set s) cur1 range1 (al_rate s) (al_accum s) mean1 ssd1 calls2 equil2 fc false, out).
+
+  Definition alb_save (s : alb_state) : alb_saved :=
+    ((al_set s, al_cur s, al_range s, al_rate s, al_accum s, al_mean s, al_ssd s), (al_calls s, al_equil s, al_force_c s)).
+
+  Definition alb_load (v : alb_saved) : alb_state :=
+    let '((se, cu, ra, rt, ac, me, ss), (ca, eq, fc)) := v in
+    mkAlbState se cu ra rt ac me ss ca eq fc true.
+
+  Definition alb_machine : machine alb_cfg alb_state T (T * T) alb_saved :=
+    mkMachine alb_init
+              (fun c s it rel x => alb_step c s rel x)
+              (fun c s => alb_save s)
+              (fun c s => s)
+              (fun c v => alb_load v).
+End AlbObject.
